@@ -30,7 +30,8 @@ LEVEL_TEXT = ("Placements of cancel / matching response / deadline on a virtual 
               ' Also one token governing several in-flight and later requests.'
               ' Also unprintable and argument-less callback exceptions, falsy progress values.'
               ' Also a writer stalled past the deadline while the cancelled notification is due, and several concurrent requests given one params dict.'
-              ' Also a writer stalled past the deadline at cancellation time and several concurrent requests given one params dict. Every case also runs under the dependency-free validation backend.')
+              ' Also a writer stalled past the deadline at cancellation time and several concurrent requests given one params dict. Every case also runs under the dependency-free validation backend.'
+              ' Also a token triggered before the call with a stalled writer.')
 LEVEL_NOTE = ("Trusted: virtual-time loop; the oracle accepts either neighbour inside ambiguous windows "
               "(simultaneous events, response within one poll interval after cancel).")
 RULE = ("schedule = (timeout, cancel time|none|pre, response time|none, traffic pattern, progress stream, "
